@@ -54,13 +54,13 @@ def BlockReg.asFound : BlockReg := ⟨true, false, false⟩
 /-- every branch guarded (fixes/C07-block-use-local.diff) -/
 def BlockReg.none : BlockReg := ⟨false, false, false⟩
 
-/-- the registration behaviour a dispatcher table stands for: a statement kind is filed in the
-    enclosing unit iff its branch lacks the guard (a missing branch files nothing); the USE branch
-    may instead look at `blocklevel` in its body -/
-def regOfTable (guards : List (String × Bool)) (useAware : Bool) : BlockReg :=
-  ⟨(guards.lookup "USE_RE" == some false) && !useAware,
-   guards.lookup "TYPE_RE" == some false,
-   guards.lookup "INTERFACE_RE" == some false⟩
+/-- the registration behaviour a probed table stands for (`Generated/C07.lean: blockFiled` - for every
+    kind of statement whether the working tree files it in the enclosing unit while inside a BLOCK
+    construct, observed on a witness program); a kind the table does not list files nothing -/
+def regOfTable (filed : List (String × Bool)) : BlockReg :=
+  ⟨filed.lookup "use" == some true,
+   filed.lookup "type" == some true,
+   filed.lookup "interface" == some true || filed.lookup "absinterface" == some true⟩
 
 def regDecl (reg : BlockReg) (d : Decl) : Bool :=
   match d.ns with
